@@ -80,6 +80,9 @@ package objectsets
 //@   ensures [C09] result2 == nil && len(phase.Class) > 0 ==> pauseHandedOver()
 //@   sink Client.Create#1 requires [C15] getResult(clientObj(currentObjectSetPhase)) == 4 || lastGet() == 4
 //@   sink Client.Patch#1 requires [C09,C15] true
+// the pause patch goes out for - and its response, with the bumped generation, comes back into - the very phase object
+// whose reported status is evaluated afterwards
+//@   sink Client.Patch#1 requires [C03,C06,C15] objid(arg1) == objid(clientObj(currentObjectSetPhase))
 //@   at return#7 assert [C03,C06,C15] availableCond != nil && availableCond.ObservedGeneration == genOf(objstate(clientObj(currentObjectSetPhase)))
 
 //@ props C03,C06
@@ -88,11 +91,18 @@ package objectsets
 //@   at SetStatusCondition#3 assert [C06] !failedSoFar()
 //@   at SetStatusCondition#4 assert [C06] !failedSoFar() && !inTransition
 
+// an ObjectSet that is not archived, lists objects in its spec and was seen to control nothing is in transition
+// (InTransition is cleared only if every object in spec was seen under the ObjectSet's control; this is the instance
+// of that statement with an empty controllerOf list)
 //@ func package-operator.run/internal/controllers/objectsets.isObjectSetInTransition
 //@   readonly
-//@   loop 1 invariant gomem_unchanged()
-//@   loop 2 invariant gomem_unchanged()
-//@   loop 3 invariant gomem_unchanged()
+//@   ensures [C06] !result && !archivedOS(objectSet) && len(controllerOf) == 0 ==> (forall i int :: 0 <= i && i < len(slice_of("package-operator.run/apis/core/v1alpha1.ObjectSetTemplatePhase", phasesOf(objectSet))) ==> len(slice_of("package-operator.run/apis/core/v1alpha1.ObjectSetTemplatePhase", phasesOf(objectSet))[i].Objects) == 0)
+//@   loop 1 invariant gomem_unchanged() && 0 <= idx && idx <= len(slice_of("package-operator.run/apis/core/v1alpha1.ObjectSetTemplatePhase", phasesOf(objectSet)))
+//@   loop 1 invariant [C06] len(allObjectsThatMayBeUnderManagement) > 0 || (forall i int :: 0 <= i && i < idx ==> len(slice_of("package-operator.run/apis/core/v1alpha1.ObjectSetTemplatePhase", phasesOf(objectSet))[i].Objects) == 0)
+//@   loop 2 invariant gomem_unchanged() && 0 <= idx
+//@   loop 2 invariant [C06] len(allObjectsThatMayBeUnderManagement) > 0 || (idx == 0 && (forall i int :: 0 <= i && i < idx1 ==> len(slice_of("package-operator.run/apis/core/v1alpha1.ObjectSetTemplatePhase", phasesOf(objectSet))[i].Objects) == 0))
+//@   loop 3 invariant gomem_unchanged() && 0 <= idx && idx <= len(controllerOf)
+//@   loop 3 invariant [C06] idx == 0 ==> len(allObjectsThatMayBeUnderManagement) == loopentry(len(allObjectsThatMayBeUnderManagement))
 //@   loop 4 invariant gomem_unchanged()
 
 //@ props C14
